@@ -466,7 +466,21 @@ fn operands(rng: &mut Rng, n: usize, thorough: bool) -> Vec<(Vec<u8>, Vec<u8>)> 
         inc.extend_from_slice(&(!w).wrapping_add(1 << 32).to_le_bytes());
     }
     v.push((ra.clone(), neg));
-    v.push((ra, inc));
+    v.push((ra.clone(), inc));
+    // -a at 32-bit and at 128-bit granularity
+    let mut neg32 = vec![];
+    for ch in ra.chunks(4) {
+        let w = u32::from_le_bytes([ch[0], ch[1], ch[2], ch[3]]);
+        neg32.extend_from_slice(&w.wrapping_neg().to_le_bytes());
+    }
+    v.push((ra.clone(), neg32));
+    let mut neg128 = vec![];
+    for ch in ra.chunks(16) {
+        let mut x = [0u8; 16];
+        x.copy_from_slice(ch);
+        neg128.extend_from_slice(&u128::from_le_bytes(x).wrapping_neg().to_le_bytes());
+    }
+    v.push((ra, neg128));
     // add with carries: a + b where each word of a is all-ones minus small
     let a: Vec<u8> = (0..n).map(|i| if i % 4 == 0 { 0xfe } else { 0xff }).collect();
     let b: Vec<u8> = (0..n).map(|i| if i % 4 == 0 { 0x03 } else { 0x00 }).collect();
